@@ -245,3 +245,399 @@ def fam_csr(rng: np.random.Generator, count: int) -> Iterator[dict]:
                "calls": [{"op": "csr", "shape": [nrows, ncols], "data": 1, "cols": 2,
                           "rows": 3, "x": 4}],
                "outs": {"out": 5}}
+
+
+# --------------------------------------------------------------------------
+# random multi-operation programs (C01 C05 C07 C11 C14 C15 C17 ...)
+
+ALPHABET = {
+    "elementwise": ["add", "sub", "mul", "truediv", "lt", "ge", "eq", "where", "maximum",
+                    "minimum", "neg", "abs", "sin", "exp", "sqrt_abs", "pow2", "scalar_add",
+                    "scalar_mul", "scalar_rsub", "scalar_rdiv", "logical_and", "logical_not",
+                    "astype", "floordiv_s", "mod_s"],
+    "reduce": ["sum", "prod", "amax", "amin", "all", "any"],
+    "remap": ["stack", "concatenate", "roll", "transpose", "reshape", "expand_dims",
+              "squeeze", "broadcast_to", "basic_index"],
+    "advanced": ["adv_index"],
+    "einsum": ["einsum", "matmul", "dot"],
+    "create": ["zeros", "ones", "full", "arange", "eye", "zeros_like", "ones_like"],
+}
+ALL_OPS = [o for v in ALPHABET.values() for o in v]
+
+_SHAPES = [(), (1,), (2,), (3,), (4,), (2, 3), (3, 2), (1, 3), (3, 1), (2, 2), (3, 3),
+           (2, 3, 2), (2, 1, 3), (1, 2, 2), (3, 0), (0,), (2, 2, 2, 2)]
+
+
+class _Gen:
+    def __init__(self, rng: np.random.Generator, dtypes: tuple[str, ...]):
+        import numpy  # noqa: F401
+
+        from . import replay as rp
+        self.rp = rp
+        self.rng = rng
+        self.dtypes = dtypes
+        self.items: list[dict] = []     # {"kind": "input"|"call", "desc": ..., "np": array}
+
+    # -- helpers
+    def pick(self, seq: Any) -> Any:
+        return seq[int(self.rng.integers(len(seq)))]
+
+    def add_input(self, shape: tuple, dtype: str, kind: str = "ph",
+                  data: np.ndarray | None = None) -> int:
+        n = sum(1 for it in self.items if it["kind"] == "input")
+        name = f"in{n}" if kind == "ph" else f"dw{n}"
+        desc: dict[str, Any] = {"name": name, "shape": list(shape), "dtype": dtype,
+                                "kind": kind}
+        if data is not None:
+            desc["data"] = data.reshape(-1).tolist()
+            arr = data
+        else:
+            arr = np.ones(shape, self.rp.DT[dtype])
+        self.items.append({"kind": "input", "desc": desc, "np": arr})
+        return len(self.items)
+
+    def arrays(self, pred: Any = None) -> list[int]:
+        return [k + 1 for k, it in enumerate(self.items)
+                if it["np"] is not None and (pred is None or pred(it["np"]))]
+
+    def np_of(self, ref: int) -> np.ndarray:
+        return self.items[ref - 1]["np"]
+
+    def try_call(self, call: dict) -> bool:
+        import warnings
+        nb = self.rp.NpBackend({})
+        nb.values = [it["np"] for it in self.items]
+        try:
+            with warnings.catch_warnings():
+                warnings.simplefilter("ignore")
+                v = np.asarray(nb._call(call))
+        except Exception:      # noqa: BLE001
+            return False
+        from .export import dt
+        if v.size > 300 or v.ndim > 4 or dt(v.dtype) not in self.rp.DT:
+            return False
+        self.items.append({"kind": "call", "desc": call, "np": v})
+        return True
+
+    # -- one random call
+    def step(self, ops: list[str]) -> bool:
+        rng, pick = self.rng, self.pick
+        op = pick(ops)
+        isnum = lambda a: a.dtype.kind in "fiuc"          # noqa: E731
+        isreal = lambda a: a.dtype.kind in "fiu"          # noqa: E731
+        isfloat = lambda a: a.dtype.kind == "f"           # noqa: E731
+        anyarr = self.arrays()
+        if not anyarr:
+            return False
+
+        def two(pred: Any) -> tuple[int, int] | None:
+            c = self.arrays(pred)
+            if not c:
+                return None
+            a = pick(c)
+            # prefer a broadcast-compatible partner
+            comp = [b for b in c if _bcast_ok(self.np_of(a).shape, self.np_of(b).shape)]
+            return a, pick(comp or c)
+
+        if op in ("add", "sub", "mul", "maximum", "minimum"):
+            t = two(isreal if op in ("maximum", "minimum") else isnum)
+            return bool(t) and self.try_call({"op": op, "a": t[0], "b": t[1]})
+        if op == "truediv":
+            t = two(isfloat)
+            return bool(t) and self.try_call({"op": op, "a": t[0], "b": t[1]})
+        if op in ("lt", "ge", "eq"):
+            t = two(isreal)
+            return bool(t) and self.try_call({"op": op, "a": t[0], "b": t[1]})
+        if op == "logical_and":
+            t = two(lambda a: a.dtype.kind == "b")
+            return bool(t) and self.try_call({"op": op, "a": t[0], "b": t[1]})
+        if op == "logical_not":
+            c = self.arrays(lambda a: a.dtype.kind == "b")
+            return bool(c) and self.try_call({"op": op, "a": pick(c)})
+        if op == "where":
+            t = two(isreal)
+            if not t:
+                return False
+            conds = [c for c in self.arrays(lambda a: a.dtype.kind == "b")
+                     if _bcast_ok(self.np_of(c).shape, self.np_of(t[0]).shape)]
+            if not conds or rng.random() < 0.3:
+                if not self.try_call({"op": "gt", "a": t[0],
+                                      "b": {"py": "float", "v": "0.25"}}):
+                    return False
+                conds = [len(self.items)]
+            return self.try_call({"op": "where", "c": pick(conds), "a": t[0], "b": t[1]})
+        if op in ("neg", "abs"):
+            c = self.arrays(isnum if op == "neg" else (lambda a: a.dtype.kind in "fc"))
+            return bool(c) and self.try_call({"op": op, "a": pick(c)})
+        if op in ("sin", "exp"):
+            c = self.arrays(isfloat)
+            return bool(c) and self.try_call({"op": op, "a": pick(c)})
+        if op == "sqrt_abs":
+            c = self.arrays(isfloat)
+            if not c:
+                return False
+            a = pick(c)
+            return self.try_call({"op": "abs", "a": a}) and \
+                self.try_call({"op": "sqrt", "a": len(self.items)})
+        if op == "pow2":
+            c = self.arrays(isreal)
+            return bool(c) and self.try_call({"op": "pow", "a": pick(c),
+                                              "b": {"py": "int", "v": "2"}})
+        if op in ("scalar_add", "scalar_mul", "scalar_rsub"):
+            c = self.arrays(isnum)
+            if not c:
+                return False
+            s = pick([{"py": "int", "v": "2"}, {"py": "float", "v": "0.5"},
+                      {"py": "int", "v": "-1"}, {"np": "f4", "v": "1.5"}])
+            a = pick(c)
+            real = {"scalar_add": "add", "scalar_mul": "mul", "scalar_rsub": "sub"}[op]
+            if op == "scalar_rsub":
+                return self.try_call({"op": real, "a": s, "b": a})
+            return self.try_call({"op": real, "a": a, "b": s})
+        if op == "scalar_rdiv":
+            c = self.arrays(isfloat)
+            return bool(c) and self.try_call({"op": "truediv", "a": pick(c),
+                                              "b": {"py": "float", "v": "2.0"}})
+        if op in ("floordiv_s", "mod_s"):
+            c = self.arrays(lambda a: a.dtype.kind in "iu")
+            return bool(c) and self.try_call({"op": op[:-2], "a": pick(c),
+                                              "b": {"py": "int", "v": "3"}})
+        if op == "astype":
+            a = pick(anyarr)
+            src = self.np_of(a).dtype.kind
+            targets = {"b": ["i4", "f8", "i8"], "i": ["f8", "i8", "f4"], "u": ["f8"],
+                       "f": ["f4", "f8", "c16"], "c": ["c16"]}[src]
+            targets = [t for t in targets if t in self.dtypes] or ["f8"]
+            return self.try_call({"op": "astype", "a": a, "dtype": pick(targets)})
+        if op in ("sum", "prod", "amax", "amin", "all", "any"):
+            pred = isreal if op in ("amax", "amin") else \
+                ((lambda a: a.dtype.kind == "b") if op in ("all", "any") else isnum)
+            c = self.arrays(pred)
+            if not c:
+                return False
+            a = pick(c)
+            nd = self.np_of(a).ndim
+            if nd == 0 or rng.random() < 0.25:
+                axis: Any = None
+            else:
+                k = int(rng.integers(1, nd + 1))
+                axes = sorted(rng.permutation(nd)[:k].tolist())
+                axis = axes[0] if len(axes) == 1 and rng.random() < 0.5 else axes
+            return self.try_call({"op": op, "a": a, "axis": axis})
+        if op in ("stack", "concatenate"):
+            a = pick(anyarr)
+            sa = self.np_of(a)
+            same = [b for b in anyarr if self.np_of(b).shape == sa.shape
+                    and self.np_of(b).dtype.kind != "b"]
+            if sa.dtype.kind == "b" or not same:
+                return False
+            k = int(rng.integers(1, 4))
+            arrs = [a] + [pick(same) for _ in range(k - 1)]
+            if op == "stack":
+                return self.try_call({"op": op, "arrays": arrs,
+                                      "axis": int(rng.integers(0, sa.ndim + 1))})
+            if sa.ndim == 0:
+                return False
+            return self.try_call({"op": op, "arrays": arrs,
+                                  "axis": int(rng.integers(0, sa.ndim))})
+        if op == "roll":
+            c = self.arrays(lambda a: a.ndim >= 1)
+            if not c:
+                return False
+            a = pick(c)
+            return self.try_call({"op": "roll", "a": a, "shift": int(rng.integers(-4, 5)),
+                                  "axis": int(rng.integers(0, self.np_of(a).ndim))})
+        if op == "transpose":
+            c = self.arrays(lambda a: a.ndim >= 2)
+            if not c:
+                return False
+            a = pick(c)
+            return self.try_call({"op": "transpose", "a": a,
+                                  "axes": rng.permutation(self.np_of(a).ndim).tolist()})
+        if op == "reshape":
+            a = pick(anyarr)
+            size = self.np_of(a).size
+            cands = [s for s in _SHAPES + [(6,), (4, 3), (12,), (2, 6), (6, 2), (8,), (4, 2),
+                                           (2, 4), (9,), (1, 1), (4, 4), (16,), (2, 8)]
+                     if int(np.prod(s, dtype=np.int64)) == size]
+            if not cands:
+                return False
+            return self.try_call({"op": "reshape", "a": a, "newshape": list(pick(cands)),
+                                  "order": "C" if rng.random() < 0.6 else "F"})
+        if op == "expand_dims":
+            a = pick(anyarr)
+            return self.try_call({"op": op, "a": a,
+                                  "axis": int(rng.integers(0, self.np_of(a).ndim + 1))})
+        if op == "squeeze":
+            c = self.arrays(lambda a: 1 in a.shape)
+            if not c:
+                return False
+            a = pick(c)
+            ones = [k for k, n in enumerate(self.np_of(a).shape) if n == 1]
+            return self.try_call({"op": op, "a": a, "axis": [pick(ones)]})
+        if op == "broadcast_to":
+            a = pick(anyarr)
+            sh = self.np_of(a).shape
+            new = tuple(int(rng.integers(2, 4)) if n == 1 else n for n in sh)
+            if rng.random() < 0.5:
+                new = (int(rng.integers(1, 3)),) + new
+            return self.try_call({"op": op, "a": a, "shape": list(new)})
+        if op == "basic_index":
+            c = self.arrays(lambda a: a.ndim >= 1)
+            if not c:
+                return False
+            a = pick(c)
+            sh = self.np_of(a).shape
+            k = int(rng.integers(1, len(sh) + 1))
+            items = []
+            for ax in range(k):
+                its = _reduced_items(sh[ax])
+                if sh[ax] == 0:
+                    its = [i for i in its if i["t"] == "slice"]
+                items.append(pick(its))
+            return self.try_call({"op": "index", "a": a, "idx": items})
+        if op == "adv_index":
+            c = self.arrays(lambda a: a.ndim >= 1 and 0 not in a.shape)
+            if not c:
+                return False
+            a = pick(c)
+            sh = self.np_of(a).shape
+            k = int(rng.integers(1, len(sh) + 1))
+            base = pick([(2,), (3,), (2, 2), (1,), ()])
+            items, have_arr = [], False
+            for ax in range(k):
+                kind = pick(["arr", "arr", "int", "slice"])
+                n = sh[ax]
+                if kind == "arr":
+                    ish = base if rng.random() < 0.7 else tuple(1 for _ in base)
+                    data = rng.integers(-n, n, size=ish).astype(np.int64)
+                    ref = self.add_input(ish, "i8", "dw", data)
+                    items.append({"t": "arr", "n": ref})
+                    have_arr = True
+                elif kind == "int":
+                    items.append({"t": "int", "v": int(rng.integers(-n, n))})
+                else:
+                    items.append(pick([i for i in _reduced_items(n) if i["t"] == "slice"]))
+            if not have_arr:
+                return False
+            return self.try_call({"op": "index", "a": a, "idx": items})
+        if op == "einsum":
+            spec, shapes = pick(EINSUMS)
+            args = []
+            for s in shapes:
+                c = self.arrays(lambda a, s=s: a.shape == tuple(s) and a.dtype.kind in "fc")
+                if not c or rng.random() < 0.2:
+                    args.append(self.add_input(tuple(s), "f8"))
+                else:
+                    args.append(pick(c))
+            return self.try_call({"op": "einsum", "spec": spec, "args": args})
+        if op in ("matmul", "dot"):
+            c = self.arrays(lambda a: a.ndim >= 1 and a.dtype.kind == "f")
+            if not c:
+                return False
+            a = pick(c)
+            sa = self.np_of(a).shape
+            part = [b for b in c if (self.np_of(b).shape[0] if self.np_of(b).ndim == 1
+                                     else self.np_of(b).shape[-2]) == sa[-1]
+                    and (op == "matmul" or self.np_of(b).ndim <= 2)]
+            if not part or (op == "dot" and len(sa) > 2):
+                return False
+            return self.try_call({"op": op, "a": a, "b": pick(part)})
+        if op in ("zeros", "ones"):
+            return self.try_call({"op": op, "shape": list(pick(_SHAPES[:12])),
+                                  "dtype": pick(self.dtypes)})
+        if op == "full":
+            d = pick([t for t in self.dtypes if t[0] in "fi"] or ["f8"])
+            fill = {"py": "float", "v": "2.5"} if d[0] == "f" else {"py": "int", "v": "7"}
+            return self.try_call({"op": op, "shape": list(pick(_SHAPES[:12])), "fill": fill,
+                                  "dtype": d})
+        if op == "arange":
+            return self.try_call({"op": op, "args": [int(rng.integers(1, 6))],
+                                  "dtype": pick(["i8", "f8", "i4"])})
+        if op == "eye":
+            n = int(rng.integers(1, 4))
+            return self.try_call({"op": op, "n": n, "m": int(rng.integers(1, 4)),
+                                  "k": int(rng.integers(-1, 2)), "dtype": "f8"})
+        if op in ("zeros_like", "ones_like"):
+            c = self.arrays(isfloat)
+            return bool(c) and self.try_call({"op": op, "a": pick(c)})
+        raise ValueError(op)
+
+    def finalize(self, pid: str, nouts: int) -> dict:
+        order = [k for k, it in enumerate(self.items) if it["kind"] == "input"] + \
+                [k for k, it in enumerate(self.items) if it["kind"] == "call"]
+        remap = {old + 1: new + 1 for new, old in enumerate(order)}
+
+        def fix(o: Any) -> Any:
+            if isinstance(o, dict):
+                return {k: (remap[v] if k in ("a", "b", "c", "n", "x", "data", "cols", "rows")
+                            and isinstance(v, int) and not isinstance(v, bool)
+                            and k != "n" or (k == "n" and o.get("t") == "arr")
+                            else fix(v)) if not (k in ("arrays", "args")
+                                                 and isinstance(v, list)
+                                                 and all(isinstance(z, int) for z in v))
+                        else [remap[z] for z in v]
+                        for k, v in o.items()}
+            if isinstance(o, list):
+                return [fix(v) for v in o]
+            return o
+        inputs = [self.items[k]["desc"] for k in order if self.items[k]["kind"] == "input"]
+        calls = []
+        for k in order:
+            it = self.items[k]
+            if it["kind"] != "call":
+                continue
+            c = it["desc"]
+            if c["op"] in ("arange",):
+                calls.append(dict(c))      # "args" of arange are numbers, not refs
+            elif c["op"] == "eye":
+                calls.append(dict(c))
+            else:
+                calls.append(fix(c))
+        ncall = len(calls)
+        total = len(inputs) + ncall
+        # outputs: prefer late values; sometimes an input; sometimes the same value twice
+        cands = list(range(len(inputs) + 1, total + 1))
+        outs: dict[str, int] = {}
+        picks = [total] + [self.pick(cands) for _ in range(nouts - 1)]
+        if nouts > 1 and self.rng.random() < 0.15:
+            picks[-1] = int(self.rng.integers(1, len(inputs) + 1))
+        for j, ref in enumerate(picks):
+            outs[f"out{j}"] = int(ref)
+        return {"id": pid, "inputs": inputs, "calls": calls, "outs": outs}
+
+
+def _bcast_ok(a: tuple, b: tuple) -> bool:
+    try:
+        np.broadcast_shapes(a, b)
+        return True
+    except ValueError:
+        return False
+
+
+def random_program(rng: np.random.Generator, pid: str, ncalls: int,
+                   ops: list[str] | None = None,
+                   dtypes: tuple[str, ...] = ("f8", "f8", "f8", "f4", "i4", "i8", "b1"),
+                   nouts: int | None = None, ninputs: int | None = None) -> dict:
+    g = _Gen(rng, dtypes)
+    ops = ops or ALL_OPS
+    for _ in range(ninputs or int(rng.integers(1, 4))):
+        shape = g.pick(_SHAPES)
+        d = g.pick(dtypes)
+        if rng.random() < 0.2 and d[0] == "f":
+            g.add_input(shape, d, "dw")
+        else:
+            g.add_input(shape, d, "ph")
+    # make sure the basic ingredients exist
+    made, tries = 0, 0
+    while made < ncalls and tries < ncalls * 25:
+        tries += 1
+        before = len(g.items)
+        if g.step(ops):
+            made += sum(1 for it in g.items[before:] if it["kind"] == "call")
+        else:
+            # a failed composite step may have added inputs only; keep them
+            pass
+    if made == 0:
+        g.try_call({"op": "add", "a": 1, "b": 1})
+    return g.finalize(pid, nouts or int(rng.integers(1, 4)))
